@@ -26,9 +26,11 @@ RULE = ("cases by kind: hatvee (exact), se3 (inverse / relative / so3 block; exa
         "non-trivial = not the identity / not an all-default case; distinct by content hash")
 
 OPEN = ["so3_exp/so3_log are scipy calls: tied by the Rodrigues certificate (coefficients sin‖v‖/‖v‖, (1−cos‖v‖)/‖v‖² computed by the harness "
-        "as 200-bit Taylor sums in ‖v‖²); exp∘log / log∘exp are proved over ℝ for the mathematical expR/logR (angle π excluded: `_partial`)",
+        "as 200-bit Taylor sums in ‖v‖²); exp∘log / log∘exp are proved over ℝ for the mathematical expR/logRFull on the whole group "
+        "(exp_log_real, log_exp_real, log_exp_real_at_pi)",
         "sim3_scale = det^(1/3) is irrational: the model takes the scale evo computed as an input; s³ = det is checked per case",
-        "rotation angle exactly π: axis sign is not determined; log∘exp is only checked for ‖v‖ < π",
+        "rotation angle exactly π: the rotation vector is unique only up to sign (log_exp_real_at_pi); which of ±v scipy returns is not modelled: compared up to sign",
+        "a float32 Sim(3) matrix makes numpy evaluate det and the cube root in float32 (scale 512.0001 for 512): float32 rounding, outside the binary64 domain, not generated",
         "float rounding: numeric results are compared to 64·2⁻⁵³·magnitude, membership decisions within 1e-13 of a threshold are skipped"]
 
 
